@@ -1,9 +1,118 @@
-(* C06 - serialize/deserialize round-trip and produce the Specification's wire encoding. Statements only. *)
+(* C06 - serialize/deserialize round-trip and produce the Specification's wire encoding. Statements only.
+
+   Vocabulary (definitions in Serdes/): [serialize]/[deserialize] - the executable model of pydsdl/_serdes.py
+   (byte-buffer writer with aligned fast path and bit-wise slow path, offset/limit reader);  [spec_enc t v hdr] - the
+   Specification's encoding as a bit list (Serdes/Spec.v);  [packs bytes bits] - bytes is the byte string carrying bits
+   (bit j is bit j mod 8 of byte j / 8);  [canon t v] - v with casts applied and defaults filled in;  [validb t v] - v has
+   the shape of t;  [wft], [serializable], [is_composite] - the type is constructible / only uses void, byte, utf8 where
+   pydsdl allows them / is a structure, union or delimited type;  [hdr_ok] - the header flag only with delimited types. *)
 From Coq Require Import ZArith List Bool.
-From PV Require Import BLS.Model Layout.Types Serdes.Model Serdes.ProofsReject.
+From PV Require Import BLS.Model Layout.Types Serdes.Model Serdes.Bits Serdes.BitsProofs Serdes.WriterProofs Serdes.ReaderProofs
+  Serdes.Spec Serdes.SerProofs Serdes.DeserProofs Serdes.Roundtrip Serdes.ProofsReject Serdes.LenProofs Serdes.Exact Serdes.CanonProofs.
+From PV Require Import BLS.Den.
 Import ListNotations.
 Open Scope Z_scope.
+
+(* the writer (fast and slow path, any offset, any width) appends the n low bits of the value, least significant first *)
+Theorem C06_writer_refines : forall w bs value n, 0 <= n -> WR w bs -> WR (write_bits w value n) (bs ++ low_bits (Z.to_nat n) value).
+Proof. exact write_bits_WR. Qed.
+Print Assumptions C06_writer_refines.
+
+(* align_to writes zero bits up to the next multiple of the alignment *)
+Theorem C06_writer_align : forall w bs a, 1 <= a -> WR w bs -> WR (w_align_to w a) (bs ++ zero_bits (pad_len a (zlen bs))).
+Proof. exact w_align_to_WR. Qed.
+Print Assumptions C06_writer_align.
+
+(* the reader (both paths, with or without limit) returns the zero-extended, limit-clipped slice and advances by n *)
+Theorem C06_reader_refines : forall r n, bytes_ok (rdata r) -> 0 <= n -> 0 <= roff r ->
+  snd (read_bits r n) = r_adv r n /\ 0 <= fst (read_bits r n) < 2 ^ n /\
+  forall k, 0 <= k < n -> Z.testbit (fst (read_bits r n)) k = rbit r (roff r + k).
+Proof. exact read_bits_spec. Qed.
+Print Assumptions C06_reader_refines.
+
+(* serialize succeeds on every valid value and produces exactly the Specification's encoding *)
+Theorem C06_wire_spec : forall t v hdr, wft t = true -> is_composite t = true -> hdr_ok t hdr = true -> validb t v = true ->
+  exists bytes, serialize t v hdr = Ok bytes /\ packs bytes (spec_enc t v hdr).
+Proof. exact serialize_spec. Qed.
+Print Assumptions C06_wire_spec.
+
+(* ... and [packs] pins the byte string down *)
+Theorem C06_wire_unique : forall b1 b2 bits, packs b1 bits -> packs b2 bits -> b1 = b2.
+Proof. exact packs_unique. Qed.
+Print Assumptions C06_wire_unique.
+
+(* deserialize (serialize v) = canon v, for every serializable composite type and every valid value, with and without header *)
+Theorem C06_roundtrip : forall t v hdr bytes,
+  wft t = true -> serializable t = true -> is_composite t = true -> hdr_ok t hdr = true -> validb t v = true ->
+  serialize t v hdr = Ok bytes -> deserialize t bytes hdr = Ok (canon t v).
+Proof. exact roundtrip. Qed.
+Print Assumptions C06_roundtrip.
+
+(* the produced bit length is an element of the bit length set of the type (of the inner type when a delimited type is
+   written without its header): [Den] is the mathematically defined set of the operator tree (C01), [bls] the tree pydsdl builds *)
+Theorem C06_length_in_bls : forall t v hdr bytes,
+  wft t = true -> serializable t = true -> is_composite t = true -> hdr_ok t hdr = true -> validb t v = true ->
+  serialize t v hdr = Ok bytes -> Den (bls (payload_type t hdr)) (8 * zlen bytes).
+Proof. exact length_in_bls. Qed.
+Print Assumptions C06_length_in_bls.
+
+(* [validb] of a delimited type contains one semantic side condition: the byte length of the inner representation fits the
+   32-bit header.  The inner representation never exceeds the extent, so the condition is vacuous for extents < 2^35 bits. *)
+Theorem C06_inner_within_extent : forall i ext v, wft (TDelim i ext) = true -> serializable i = true -> validb i v = true ->
+  zlen (enc i v 0) <= ext.
+Proof. exact inner_le_extent. Qed.
+Print Assumptions C06_inner_within_extent.
+
+(* "deserialize (serialize v) returns v": values that need no clamping / wrapping / rounding / defaults are canonical *)
+Theorem C06_roundtrip_exact : forall t v hdr bytes,
+  wft t = true -> serializable t = true -> is_composite t = true -> hdr_ok t hdr = true -> validb t v = true -> exactb t v = true ->
+  serialize t v hdr = Ok bytes -> deserialize t bytes hdr = Ok v.
+Proof. intros t v hdr bytes Hw Hs Hc Hh Hv Hx E. pose proof (roundtrip t v hdr bytes Hw Hs Hc Hh Hv E) as R. rewrite (canon_exact t Hw v Hx) in R. exact R. Qed.
+Print Assumptions C06_roundtrip_exact.
+
+(* integer cast modes: what the reader gets back for an out-of-range number ([cast_int] is what [canon] applies) *)
+Theorem C06_cast_in_range : forall p z,
+  (match p with PUInt w _ => 0 <= z < 2 ^ w | PSInt w => - 2 ^ (w - 1) <= z < 2 ^ (w - 1) | PByte | PUtf8 => 0 <= z < 256 | _ => True end) ->
+  cast_int p z = z.
+Proof. exact cast_in_range. Qed.
+Print Assumptions C06_cast_in_range.
+
+Theorem C06_cast_saturated_unsigned : forall w z, 0 <= w ->
+  cast_int (PUInt w Sat) z = if z <? 0 then 0 else if 2 ^ w - 1 <? z then 2 ^ w - 1 else z.
+Proof. exact cast_saturated_unsigned. Qed.
+Print Assumptions C06_cast_saturated_unsigned.
+
+Theorem C06_cast_saturated_signed : forall w z, 1 <= w ->
+  cast_int (PSInt w) z = if z <? - 2 ^ (w - 1) then - 2 ^ (w - 1) else if 2 ^ (w - 1) - 1 <? z then 2 ^ (w - 1) - 1 else z.
+Proof. exact cast_saturated_signed. Qed.
+Print Assumptions C06_cast_saturated_signed.
+
+Theorem C06_cast_truncated : forall w z, cast_int (PUInt w Trunc) z = z mod 2 ^ w.
+Proof. exact cast_truncated. Qed.
+Print Assumptions C06_cast_truncated.
+
+(* defaults: an omitted structure field is serialized exactly like the explicit zero value (0 / false / +0.0 / zero-filled
+   fixed array / empty variable array / first variant, recursively), which is itself valid and canonical *)
+Theorem C06_defaults_omitted : forall nm t r vs w,
+  ser_fields ser ((Some nm, t) :: r) (VOmit :: vs) w = ser_fields ser ((Some nm, t) :: r) (default_value t :: vs) w.
+Proof. intros. cbn [ser_fields]. destruct (default_value t); reflexivity. Qed.
+Print Assumptions C06_defaults_omitted.
+
+Theorem C06_defaults_valid : forall t, wft t = true -> serializable t = true -> small_ext t = true ->
+  validb t (default_value t) = true /\ canon t (default_value t) = default_value t.
+Proof. exact default_good. Qed.
+Print Assumptions C06_defaults_valid.
 
 Theorem C06_header_flag_sealed : forall t v, (match t with TDelim _ _ => false | _ => true end) = true -> serialize t v true = Err EValue.
 Proof. exact serialize_header_flag_sealed. Qed.
 Print Assumptions C06_header_flag_sealed.
+
+(* non-vacuity: sub-byte field, signed clamp, variable array of a delimited structure, omitted field, truncated float overflow *)
+Definition ex_d : ty := TDelim (TStruct [] [(Some [1], TPrim (PUInt 3 Trunc)); (Some [2], TPrim (PFloat 16 Trunc))]) 24.
+Definition ex_t : ty := TStruct [] [(Some [1], TPrim (PSInt 5)); (None, TVoid 2); (Some [2], TVar ex_d 2); (Some [3], TVar (TPrim PUtf8) 4)].
+Definition ex_v : val := VStruct [VInt (-100); VList [VStruct [VInt 13; VFlt 4681608360884174848 (* 1e5 *)]; VStruct [VOmit; VOmit]]; VList [VInt 226; VInt 130; VInt 172]].
+Example C06_nonvacuous :
+  wft ex_t = true /\ serializable ex_t = true /\ is_composite ex_t = true /\ validb ex_t ex_v = true /\
+  serialize ex_t ex_v false = Ok [16; 2; 3; 0; 0; 0; 5; 224; 3; 3; 0; 0; 0; 0; 0; 0; 3; 226; 130; 172] /\
+  canon ex_t ex_v = VStruct [VInt (-16); VList [VStruct [VInt 5; VFlt 9218868437227405312 (* +inf *)]; VStruct [VInt 0; VFlt 0]]; VList [VInt 226; VInt 130; VInt 172]].
+Proof. vm_compute. repeat split; reflexivity. Qed.
